@@ -592,7 +592,7 @@ impl Check for ChangeCheck {
         "C10/change-of".into()
     }
     fn classes(&self) -> &'static [&'static str] {
-        &["value returns to an earlier value", "repeat of the same value", "delta checker", "sub-threshold drift accumulates", "objective-valued", "an evaluation with the source state missing", "an evaluation from inside a nested scope", "history also driven through a loop whose condition holds the ChangeOf"]
+        &["value returns to an earlier value", "repeat of the same value", "delta checker", "sub-threshold drift accumulates", "objective-valued", "an evaluation with the source state missing", "an evaluation from inside a nested scope", "history also driven through a loop whose condition holds the ChangeOf", "objective-valued history with +inf"]
     }
     fn oracle(&self, c: &ChangeCase) -> Outcome {
         let mut cl = 0;
@@ -611,6 +611,15 @@ impl Check for ChangeCheck {
         }
         let r = change_oracle(c, &mut cl);
         Outcome::new(cl & 1 != 0, cl, r)
+    }
+}
+
+/// Objective-valued histories: 7 encodes +inf.
+fn obj_value(v: i64) -> f64 {
+    if v == 7 {
+        f64::INFINITY
+    } else {
+        v as f64
     }
 }
 
@@ -640,7 +649,7 @@ fn change_oracle(c: &ChangeCase, cl: &mut u64) -> Result<(), Failure> {
             continue;
         }
         if c.objective {
-            st.insert(ObjState(SingleObjective::try_from(*v as f64).unwrap()));
+            st.insert(ObjState(SingleObjective::try_from(obj_value(*v)).unwrap()));
         } else {
             st.insert(T0(*v));
         }
@@ -664,10 +673,22 @@ fn change_oracle(c: &ChangeCase, cl: &mut u64) -> Result<(), Failure> {
         } else {
             eval_cond(cond.as_ref(), &p, &mut st)
         };
+        // in objective mode the value 7 stands for +inf (an infeasible best-so-far): equal to itself, infinitely far from
+        // everything else; whether two infinite values are within a tolerance of each other (inf - inf) is not specified -
+        // the condition must answer without failing, and the model follows its answer
+        let unspecified = c.objective && c.threshold.is_some() && prev == Some(7) && *v == 7;
+        if c.objective && *v == 7 {
+            *cl |= 256;
+        }
         let want = match prev {
             None => true,
+            Some(_) if unspecified => match &got {
+                Ok(b) => *b,
+                Err(_) => false,
+            },
             Some(pv) => match c.threshold {
                 None => pv != *v,
+                Some(t) if c.objective => (obj_value(pv) - obj_value(*v)).abs() >= t as f64,
                 Some(t) => (pv - *v).abs() >= t,
             },
         };
@@ -1087,6 +1108,11 @@ pub fn run_all(ctx: &mut Ctx, replay: Option<&Path>) {
                     }
                 }
             }
+        }
+    }
+    for v in [vec![7i64, 7], vec![1, 7, 7, 2], vec![7, 1, 7], vec![7, 7, 7, 1, 1]] {
+        for th in [None, Some(2), Some(3)] {
+            hs.push(ChangeCase { threshold: th, values: v.clone(), objective: true, missing: Vec::new(), scoped: Vec::new() });
         }
     }
     ctx.exhaustive(&ch, "all value histories up to the length bound over {1,2,4} x {PartialEq, Delta(2), Delta(3)}, alternating i64 / SingleObjective; histories of length 2-5 also with one evaluation failing because the source state is missing", hs.into_iter());
